@@ -146,3 +146,48 @@ for mode, dst, src in (('fwd', '_doutputs', '_dresiduals'), ('rev', '_dresiduals
              canaries=[('unscaled context skipped when only the outputs are scaled (the defect repaired in /repo)',
                         (('if self._has_output_scaling or self._has_resid_scaling:\n                with self._unscaled_context(outputs=[d_outputs], residuals=[d_residuals]):\n                    %s' % stmt),
                          ('if self._has_resid_scaling:\n                with self._unscaled_context(outputs=[d_outputs], residuals=[d_residuals]):\n                    %s' % stmt)), 'post')])
+
+
+# ---- Group._compute_root_scale_factors, one iteration of the connected-input loop (extracted mechanically) -----------
+# scalar ref / ref0 on the source.  The tuple handed to DefaultVector._set_scaling for an input is
+#   (a0, a1, factor, offset) = (ref0, ref - ref0, *unit_conversion(source units, input units))   when the units differ,
+#   (ref0, ref - ref0, None, None)                                                              when they do not and (ref0, ref) != (0, 1),
+#   and no entry at all when neither scaling nor a unit conversion applies.
+# With the _set_scaling contract above and lemma:input_phys_from_norm this is what makes a connected input hold
+# (source + offset) * factor in its own units (C04).
+GRP = 'openmdao/core/group.py'
+
+
+def _rsf_params(units_in, units_out):
+    return dict(
+        abs_in='c.x', meta_in=DictT({'src_inds_list': None}),
+        self=Obj('Group', _conn_global_abs_in2out=DictT({'c.x': 's.y'}), msginfo='g'),
+        conn_graph=Obj('AllConnGraph', nodes=DictT({('i', 'c.x'): DictT({'attrs': Obj('NodeAttrs', units=units_in)}),
+                                                    ('o', 's.y'): DictT({'attrs': Obj('NodeAttrs', units=units_out)})})),
+        allprocs_meta_out=DictT({'s.y': DictT({'ref': Real(), 'ref0': Real()})}),
+        scale_factors=DictT({}))
+
+
+REF, REF0 = "allprocs_meta_out['s.y']['ref']", "allprocs_meta_out['s.y']['ref0']"
+# an adder array is allocated for the input vector as soon as some input needs a non-zero adder (a0, in input units)
+ADDER = {True: ["implies('c.x' in result['scale_factors'], iff(result['self']._has_input_adder, old(self._has_input_adder) or (%s + self._uo) * self._uf != 0))" % REF0],
+         False: ["implies('c.x' in result['scale_factors'], iff(result['self']._has_input_adder, old(self._has_input_adder) or %s != 0))" % REF0]}
+UCONV = Assumed(returns_expr="(self._uf, self._uo)", note='unit_conversion(source units, input units) -> (factor, offset) (C06)')
+for _ui, _uo in ((None, None), ('m', 'm'), ('cm', 'm'), (None, 'm')):
+    differ = _ui is not None and _uo is not None and _ui != _uo
+    p_ = _rsf_params(_ui, _uo)
+    p_['self'] = Obj('Group', _conn_global_abs_in2out=DictT({'c.x': 's.y'}), msginfo='g', _uf=Real(), _uo=Real(), _has_input_adder=Bool())
+    if differ:
+        ens = ["'c.x' in result['scale_factors'] or (self._uf == 1 and self._uo == 0 and %s == 1 and %s == 0)" % (REF, REF0),
+               "((result['scale_factors']['c.x']['input'][0] == %s and result['scale_factors']['c.x']['input'][1] == %s - %s and "
+               "result['scale_factors']['c.x']['input'][2] == self._uf and result['scale_factors']['c.x']['input'][3] == self._uo) "
+               "if 'c.x' in result['scale_factors'] else (self._uf == 1 and self._uo == 0))" % (REF0, REF, REF0)]
+    else:
+        ens = ["iff('c.x' in result['scale_factors'], not (%s == 1 and %s == 0))" % (REF, REF0),
+               "((result['scale_factors']['c.x']['input'][0] == %s and result['scale_factors']['c.x']['input'][1] == %s - %s and "
+               "result['scale_factors']['c.x']['input'][2] is None and result['scale_factors']['c.x']['input'][3] is None) if 'c.x' in result['scale_factors'] else True)" % (REF0, REF, REF0)]
+    contract(GRP + '::Group._compute_root_scale_factors@loopbody(in_node_meta)', ['C08', 'C04'], p_,
+             ensures=ens + ADDER[differ], modifies=['scale_factors', 'self._has_input_adder'], inline={'_chk_scale_factor'}, assumed={'unit_conversion': UCONV},
+             name=GRP + '::Group._compute_root_scale_factors[connected input, units in=%s out=%s]' % (_ui, _uo),
+             canaries=([('unit conversion taken in the wrong direction', ('factor, offset = unit_conversion(units_out, units_in)\n\n                    # Send both', 'offset, factor = unit_conversion(units_out, units_in)\n\n                    # Send both'), 'post', GRP + '::Group._compute_root_scale_factors')] if differ else
+                       [('a1 is ref instead of ref - ref0', ('a1 = ref - ref0\n\n                if units_in is None', 'a1 = ref\n\n                if units_in is None'), 'post', GRP + '::Group._compute_root_scale_factors')] if _ui == 'm' else []))
